@@ -24,7 +24,7 @@ func init() {
 			"(R3) daemon.AcquireLock returns a Lock only after Locker.Lock(false) == nil on the locker it opened for the daemon lock path, and closes the locker otherwise; " +
 			"(R4, identity of the lock file) the functions of daemon/lock.go and the Locker never remove, rename or recreate the lock file (an fcntl lock belongs to the inode: unlinking it while held lets a second process lock a new inode); Release unlocks before closing; the file handle is closed only by Locker.Close. " +
 			"Not decided: kernel fcntl semantics (release on process death is the kernel's doing), races between processes.",
-		Assumptions: []string{"POSIX advisory record locks: exclusive per inode, released when the holder closes the file or dies"},
+		Assumptions:  []string{"POSIX advisory record locks: exclusive per inode, released when the holder closes the file or dies"},
 		ThoroughGOOS: []string{"darwin"},
 		Run:          runC28,
 	})
